@@ -891,6 +891,13 @@ fn count_decl(o: &mut Outcome, fam: &str, d: &Decl) {
     }
 }
 
+/// hands the cases collected so far to the model once there are many (bounds memory)
+fn maybe_flush(o: &mut Outcome) {
+    if o.cases.len() >= 250_000 {
+        o.flush(crate::util::jobs());
+    }
+}
+
 // ------------------------------------------------------------------ 1. path-only trees
 
 /// Sixteen trees around one root: alias twins, shared prefixes of every length, `self`, lists.
@@ -1026,6 +1033,7 @@ fn corr_granularity(o: &mut Outcome, run: &[Tree], v: bool, what: &str) {
         }
         o.push("corr", "imp.granularity", format!("imp.granularity {} {} {}", st(v), GNAMES[g as usize], litems(&items)), ans, format!("{}: {}", what, run.iter().map(|t| t.text()).collect::<Vec<_>>().join(" ; ")), run.len() >= 2);
     }
+    maybe_flush(o);
 }
 
 fn part_trees(o: &mut Outcome, rng: &mut Rng, thorough: bool) {
@@ -1061,6 +1069,7 @@ fn part_trees(o: &mut Outcome, rng: &mut Rng, thorough: bool) {
     // pairs: share_prefix, merge
     let pairs_of = if thorough { pool_trees.len() } else { medium.len() };
     for a in pool_trees.iter().take(pairs_of) {
+        maybe_flush(o);
         for b in pool_trees.iter().take(pairs_of) {
             let (ea, eb) = (enc_h(a), enc_h(b));
             let (ia, ib) = (litem(&bare(a)), litem(&bare(b)));
@@ -1098,6 +1107,7 @@ fn part_trees(o: &mut Outcome, rng: &mut Rng, thorough: bool) {
     let extra: Vec<Tree> = ["c as p", "c", "b::c", "b as q", "self", "self as z", "*", "b::{x, y}", "b::c::d", "@"].iter().map(|s| tr(s)).collect();
     let adds: Vec<Tree> = small.iter().chain(extra.iter()).cloned().collect();
     for l in &lists {
+        maybe_flush(o);
         for t in &adds {
             for sp in 0..3u8 {
                 let r = hi::tree_merge_inner(&enc_hs(l), &enc_h(t), sp, StyleEdition::Edition2021);
@@ -1202,7 +1212,9 @@ fn stages(src: &str, c: &HCfg, pairs: bool) -> Result<hi::UseStages, String> {
 /// `full`: every single-item and pair operation; otherwise only the run-level ones.
 fn corr_source(o: &mut Outcome, decls: &[Decl], c: &HCfg, full: bool, what: &str) {
     let src: String = decls.iter().map(|d| d.text() + "\n").collect();
-    let desc = format!("{} [{}] {}", what, c.text(), enc_str(&src));
+    // the source text is carried by the imp.run case of the run only (every request is replayable by itself)
+    let full_desc = format!("{} [{}] {}", what, c.text(), enc_str(&src));
+    let desc = what.to_string();
     let s = match stages(&src, c, full) {
         Ok(s) => s,
         Err(e) => {
@@ -1283,8 +1295,9 @@ fn corr_source(o: &mut Outcome, decls: &[Decl], c: &HCfg, full: bool, what: &str
     // the whole arm: the model normalises the raw items itself; the comment flag of an item is the
     // one it has once the comments around it are attached
     let run_in: Vec<Item> = raw.iter().zip(attached.iter()).map(|(r, a)| Item { comment: a.comment, ..r.clone() }).collect();
-    o.push("corr", "imp.run", format!("imp.run {} {} {} {} {}", st(v), GNAMES[c.granularity], GROUPS_L[c.group], c.reorder as u8, litems(&run_in)), lgroups(&s.run.iter().map(|g| of_hooks(g)).collect::<Vec<_>>()), desc, n >= 2);
+    o.push("corr", "imp.run", format!("imp.run {} {} {} {} {}", st(v), GNAMES[c.granularity], GROUPS_L[c.group], c.reorder as u8, litems(&run_in)), lgroups(&s.run.iter().map(|g| of_hooks(g)).collect::<Vec<_>>()), full_desc, n >= 2);
     o.count(&format!("source:run granularity={} group={} reorder={}", GNAMES[c.granularity], GROUPS_L[c.group], c.reorder));
+    maybe_flush(o);
 }
 
 /// The declarations of the exhaustive small domain: one root, every feature once.
@@ -1540,9 +1553,17 @@ fn tags(u: &PUse) -> Vec<String> {
 
 fn part_e2e(o: &mut Outcome, rng: &mut Rng, thorough: bool) {
     let nprog = if thorough { 6000 } else { 700 };
+    // in chunks, so that the model requests and the formatter outputs of one chunk are dropped before the next
+    for chunk in 0..(nprog / 350) {
+        e2e_chunk(o, rng, chunk * 350, 350);
+        o.flush(crate::util::jobs());
+    }
+}
+
+fn e2e_chunk(o: &mut Outcome, rng: &mut Rng, k0: usize, nprog: usize) {
     let gopts = GenOpts { max_depth: 4, comments: true, odd: true, global: true };
     let mut progs: Vec<(EProg, String, Analysed)> = vec![];
-    for k in 0..nprog {
+    for k in k0..(k0 + nprog) {
         let p = gen_prog(rng, &gopts, k % 2 == 0);
         let src = p.text();
         // the harness parser reads the input as the generator wrote it
